@@ -91,8 +91,21 @@ META["C03"] = {
     "assumptions": ["slot addresses are only compared for equality by the code under test (array order = stream order)",
                     "pre-state satisfies INV_stream (and INV_forest / INV_assoc where named in the harness)"],
 }
+def forests(n):
+    """all parent vectors over n nodes that are acyclic (labelled rooted forests)"""
+    import itertools
+    out = []
+    for pv in itertools.product(range(-1, n), repeat=n):
+        ok = True
+        for i in range(n):
+            seen, p = set(), i
+            while p != -1 and p not in seen: seen.add(p); p = pv[p]
+            if p != -1: ok = False; break
+        if ok: out.append(pv)
+    return out
+FORESTED = {"vh_attach", "vh_link_clusters", "vh_delete_gc", "vh_put_copy", "vh_temp_copy", "vh_finalise", "vh_scale", "vh_depth"}
 WINDOWED = {"vh_delete_gc", "vh_insert", "vh_put_copy", "vh_temp_copy", "vh_next", "vh_assoc_op", "vh_attach", "vh_attr_set"}
-def slot_queries(pid, entries, quickmax, thoroughmax, extra=None, nmin=1, extra_unwind=None, src="slots.cpp"):
+def slot_queries(pid, entries, quickmax, thoroughmax, extra=None, nmin=1, extra_unwind=None, src="slots.cpp", with_forest=False):
     qs = []
     for e in entries:
         for n in range(nmin, thoroughmax + 1):
@@ -100,15 +113,26 @@ def slot_queries(pid, entries, quickmax, thoroughmax, extra=None, nmin=1, extra_
             lib = {"reverseSlots": n + 2, "collectGarbage": n + 3, "freeSlot": n + 2, "associateChars": n + 2, "appendSlot": n + 2, "linkClusters": n + 2,
                    "sibling": n + 2, "child": n + 2, "removeChild": n + 2, "setAttr": n + 3, "finalise": n + 2, "positionSlots": n + 2, "floodShift": n + 2,
                    "_ZN9graphite24Slot7siblingEPS0_.recursion": n + 2}
-            lib.update({"vh_.*": (n + 4) * (n + 4), "inv_.*": (n + 4) * (n + 4)})   # harness loops have concrete trip counts; nested ones share one cbmc counter
             if extra_unwind: lib.update(extra_unwind)
             wins = [(0, n, c) for c in range(n)] if e in WINDOWED else [None]
             if e in WINDOWED and n >= 3: wins += [(1, n - 1, 0), (1, 1, 0), (0, n - 1, n - 2)]   # windows that do not cover the whole stream
+            fors = forests(n) if (e in FORESTED and with_forest) else [None]
+            if len(fors) > 20:       # n >= 4: chains, stars and a spread of the rest
+                keep = [f for f in fors if all(p == -1 for p in f) or all(f[i] == i - 1 for i in range(1, n)) or all(f[i] == 0 for i in range(1, n))]
+                fors = keep + fors[3::11]
             for wdw in wins:
+              for fv in fors:
                 d = {"NS": n}
                 if extra: d.update(extra)
                 name = f"{e[3:]}_n{n}"
                 if wdw: d.update({"WSTART": wdw[0], "WLEN": wdw[1], "WCTX": wdw[2]}); name += f"_w{wdw[0]}{wdw[1]}{wdw[2]}"
+                if fv is not None: d["FORESTV"] = ",".join(str(p) for p in fv); name += "_f" + "".join("x" if p < 0 else str(p) for p in fv)
+                if e == "vh_attach":
+                    for tv in list(range(0, (wdw[1] if wdw else n) + 1)) + [-1]:
+                        d2 = dict(d); d2["ATTVAL"] = tv
+                        t2 = tiers if (n <= 2 or (wdw == (0, n, wdw[2]) and (hash(name) % 2 == 0))) else ("thorough",)
+                        qs.append(Q(name + f"_t{tv if tv >= 0 else 'o'}", src, e, d2, unwind=n + 5, unwindset=lib, tiers=t2, ub=True))
+                    continue
                 qs.append(Q(name, src, e, d, unwind=n + 5, unwindset=lib, tiers=tiers, ub=True))
     return qs
 @prop("C03")
@@ -133,3 +157,22 @@ def text_queries(extras, lens_quick, lens_thorough):
 @prop("C12")
 def c12():
     return text_queries((0, 1, 2), 2, 3)
+
+# ------------------------------------------------------------------------------------------- C04
+META["C04"] = {
+    "bounds": "one primitive from an arbitrary INV_stream + INV_forest state over NS slots (quick 1..3, thorough ..4): symbolic parent vector (acyclic by symbolic rank), children listed in index order; setAttr(attach.to) with any 16-bit value and subindex; DELETE+collectGarbage+freeSlot, PUT_COPY, TEMP_COPY+collectGarbage (shared with C03); linkClusters both directions",
+    "outside": "sibling orders other than index order in the pre-state; more than NS slots",
+    "assumptions": ["pre-state satisfies INV_forest: acyclic parents, x.parent == p iff x occurs exactly once in p's child/sibling chain"],
+}
+@prop("C04")
+def c04():
+    return slot_queries("C04", ["vh_attach", "vh_link_clusters", "vh_delete_gc", "vh_put_copy", "vh_temp_copy"], 3, 4, with_forest=True)
+# ------------------------------------------------------------------------------------------- C05
+META["C05"] = {
+    "bounds": "(a) read_text on exact-size buffers, 0..2 code units (thorough 3) x 3 encodings, nChars = unit count; (b) INSERT / ASSOC / PUT_COPY / TEMP_COPY keep slot before/after/original inside [0,n) from arbitrary INV_assoc states of NS slots (1..3, thorough ..4); (c) associateChars from arbitrary INV_stream+INV_assoc states with NS slots and NS chars (1..3, thorough ..5): every char covered, char-info before/after are slot indices",
+    "outside": "char counts different from slot counts in (c) beyond NC=NS; Slot::set/update (unused by the API path)",
+    "assumptions": ["reference decode from Unicode Table 3-7; ill-formed sequences consume the lead unit plus following continuation units (the resynchronisation lemma decided in C11)"],
+}
+@prop("C05")
+def c05():
+    return text_queries((0,), 2, 3) + slot_queries("C05", ["vh_associate", "vh_insert", "vh_assoc_op", "vh_put_copy", "vh_temp_copy", "vh_append"], 3, 4)
